@@ -3,12 +3,12 @@ from ..core import Script, Rng
 from ..stage import LineStage, replay_line
 from . import hex_gen
 
-ARTEFACTS = ["G10-hash"]
-EXTRA_PROPS = [("B3.Props.C14T", "B3/Props/C14T.lean")]   # theorems about the code translated from the sources
+ARTEFACTS = ["G4-listings", "G10-hash"]
+EXTRA_PROPS = [("B3.Props.Surface", "B3/Props/Surface.lean"), ("B3.Props.C14T", "B3/Props/C14T.lean")]   # theorems about the code translated from the sources
 PROPS_MODULE = "B3.Hex.Props"
 PROPS_PATH = "B3/Hex/Props.lean"
 RULE = ("E ops on the real Hash API: every byte value at every position of a hash (to_hex/Display/array round trips), Display under 17 formatter settings (width, fill, alignment, precision, sign, alternate, to_string), every byte value "
-        "at every position of an otherwise valid 64-character hex string (from_hex / FromStr, error kinds included), lengths 0..130, "
+        "at every position of an otherwise valid 64-character hex string (from_hex; every ASCII byte at every position through FromStr; error kinds included), lengths 0..130, "
         "upper/lower/mixed case, all 256 single-bit flips for the three PartialEq impls plus slices of length 0..64, from_slice lengths "
         "0..64, serde_json and ciborium encodings (sequence form, legacy byte-string form, mutated encodings through the decoders); "
         "non-trivial = every line; distinct = distinct op line")
